@@ -24,6 +24,7 @@ RESULT = {
  'C18/A': 'C18:failing-input', 'C18/B': 'C18:failing-input',
  'C19/A': 'C19:failing-input(missed-first: two predicate printers and values matching one / both added to the purity corpus)', 'C19/B': 'C19:failing-input',
  'C20/A': 'C20:failing-input',
+ 'C12/A': 'C12:failing-input', 'C12/B': 'C12:failing-input',
 }
 RESULT.update(json.load(open(os.path.join(ROOT, 'extra_results.json'))) if os.path.exists(os.path.join(ROOT, 'extra_results.json')) else {})
 conf = {}
